@@ -254,12 +254,13 @@ def evaluate(spec):
     case_edit_block = {ed.reg: ed.b for ed in case.edits}
 
     def data_gap(u, v):
-        """was there (deleted) data between two original instructions?  Then
+        """was there (deleted) data between two instructions?  Then
         the first one fell into data in an intermediate state and a
         fallthrough to a proxy is what the documented rule produces."""
-        if u.origin[0] != "orig" or v.origin[0] != "orig":
-            return False
-        a, b = u.origin[1], v.origin[1]
+        # (an instruction of a patch counts as part of the block it was
+        # spliced into)
+        a = u.origin[1] if u.origin[0] == "orig" else case_edit_block[u.origin[1]]
+        b = v.origin[1] if v.origin[0] == "orig" else case_edit_block[v.origin[1]]
         return any(not case.blocks[g].code for g in range(a + 1, b))
 
     # ---- per instruction ---------------------------------------------------
